@@ -72,7 +72,7 @@ REQUESTS = {
 
 def main():
     req, hseed, hlen = sys.argv[1], int(sys.argv[2]), int(sys.argv[3])
-    sys.path.insert(0, "/verif")
+    sys.path.insert(0, os.path.dirname(os.path.dirname(os.path.abspath(__file__))))
     from adcgen import (Operators, GroundState, IntermediateStates, SecularMatrix, Properties,
                         Intermediates, Expr)
     from adcgen.indices import get_symbols, Index
